@@ -47,10 +47,12 @@ package clip
 //@   ensures len(result) >= i + 1 && len(result) >= len(out) && len(result) <= len(out) + 1
 
 // intersect is only ever called with a code that has an edge bit set (its panic is unreachable);
-// piece indices stay within the output built so far
+// piece indices stay within the output built so far; a segment is given up only once it is accepted
+// (both ends inside) or both ends are beyond one edge
 //@ func line(box, in, open)
 //@   loop 1: invariant 1 <= i && i <= loopTo && loopTo == len(in) && 0 <= line && line <= len(out) && 0 <= codeA && codeA < 16
 //@   loop 2: invariant 1 <= i && i < loopTo && loopTo == len(in) && 0 <= line && line <= len(out) && 0 <= codeA && codeA < 16 && 0 <= codeB && codeB < 16 && 0 <= endCode && endCode < 16
+//@   loop 2: exit codeA|codeB == 0 || codeA&codeB != 0
 
 // ---------------------------------------------------------------- the ring clipper (Sutherland-Hodgman passes)
 // the edge mask takes the values 1,2,4,8; every pass starts from a non-empty ring; intersect is
